@@ -258,28 +258,40 @@ def run(ctx):
     if not store:
         raise AnalysisError('anchor vanished: coeff[lay, li] store in sigma2coeff')
     st = store[-1]
-    val = st.value
-    if isinstance(val, ast.Name):
-        defs = [s2 for s2 in iter_stmts(sc.body) if isinstance(s2, ast.Assign) and norm(s2.targets[0]) == val.id and s2.lineno < st.lineno]
-        val = defs[-1].value if defs else val
-    bdef = [s2 for s2 in iter_stmts(sc.body) if isinstance(s2, ast.Assign) and norm(s2.targets[0]) == 'bf']
-    tdef = [s2 for s2 in iter_stmts(sc.body) if isinstance(s2, ast.Assign) and norm(s2.targets[0]) == 'tf']
-    loopv = [l_.target.id for l_ in ast.walk(sc) if isinstance(l_, ast.For) and isinstance(l_.target, ast.Name) and any(x is st for x in ast.walk(l_))]
-    lv = loopv[-1] if loopv else 'lay'
-    mb = re.match(r'^max\(b - (\w+), 0\)$', norm(bdef[-1].value)) if bdef else None
-    mt = re.match(r'^min\(t - (\w+), 1\)$', norm(tdef[-1].value)) if tdef else None
-    if norm(val) == 'tf - bf' and mb and mt and (mb.group(1) != lv or mt.group(1) != lv):
-        ctx.violation(Finding('R-OVERLAP', CU, 'sigma2coeff', bdef[-1] if mb.group(1) != lv else tdef[-1], 'the fraction is measured from %s instead of the source layer %s of the loop: for every further layer a target '
-                              'reaches into, the offset of the first layer is subtracted again, so the overlap fractions are too small or negative' % (mb.group(1) if mb.group(1) != lv else mt.group(1), lv)))
-    elif norm(val) == 'tf - bf' and bdef and tdef and norm(bdef[-1].value) == 'max(b - lay, 0)' and norm(tdef[-1].value) == 'min(t - lay, 1)':
-        ctx.ok('R-OVERLAP', 'coeff', w, 'coeff[lay, li] = min(t - lay, 1) - max(b - lay, 0)')
-    elif norm(val) == 'tf - bf':
-        ctx.undec('R-OVERLAP', 'coeff', w, 'clipping of the fractions not in the recognised form')
+    # the loop variables by role: for I, (B, T) in enumerate(<edge pairs>): ... for L in range(..): coeff[L, I] = <value>
+    loops_ = [l_ for l_ in ast.walk(sc) if isinstance(l_, ast.For) and any(x is st for x in ast.walk(l_))]
+    outer = [l_ for l_ in loops_ if isinstance(l_.target, ast.Tuple) and len(l_.target.elts) == 2 and isinstance(l_.target.elts[1], ast.Tuple) and len(l_.target.elts[1].elts) == 2
+             and isinstance(l_.iter, ast.Call) and dotted(l_.iter.func) == 'enumerate']
+    inner = [l_ for l_ in loops_ if isinstance(l_.target, ast.Name) and isinstance(l_.iter, ast.Call) and dotted(l_.iter.func) == 'range']
+    if not outer or not inner:
+        raise AnalysisError('construct not understood: loops of sigma2coeff (for i, (b, t) in enumerate(edges): for lay in range(..))')
+    I = norm(outer[0].target.elts[0])
+    Bn, Tn = [norm(e) for e in outer[0].target.elts[1].elts]
+    lv = inner[-1].target.id
+    # the stored value with temporaries substituted (paths.expand over the body of the layer loop)
+    val = None
+    for pth in _paths.enumerate_paths(inner[-1].body):
+        res = _paths.expand(pth)
+        for s_, new in res.stmts:
+            if s_ is st:
+                val = new.value
+    if val is None:
+        raise AnalysisError('anchor vanished: coeff[lay, li] store in sigma2coeff')
+    vt = norm(val)
+    m_ = re.match(r'^min\(%s - (\w+), 1\) - max\(%s - (\w+), 0\)$' % (re.escape(Tn), re.escape(Bn)), vt)
+    if m_ and (m_.group(1) != lv or m_.group(2) != lv):
+        other = m_.group(1) if m_.group(1) != lv else m_.group(2)
+        ctx.violation(Finding('R-OVERLAP', CU, 'sigma2coeff', st, 'the fraction is measured from %s instead of the source layer %s of the loop: for every further layer a target '
+                              'reaches into, the offset of the first layer is subtracted again, so the overlap fractions are too small or negative' % (other, lv)))
+    elif m_:
+        ctx.ok('R-OVERLAP', 'coeff', w, 'coeff[%s, %s] = %s' % (lv, I, vt))
+    elif isinstance(val, ast.BinOp) and isinstance(val.op, ast.Sub) and 'min(' in norm(val.left) and 'max(' in norm(val.right) and Tn in norm(val.left) and Bn in norm(val.right):
+        ctx.undec('R-OVERLAP', 'coeff', w, 'clipping of the fractions not in the recognised form: %s' % vt[:60])
     else:
         ctx.violation(Finding('R-OVERLAP', CU, 'sigma2coeff', st, 'the overlap fraction is %s, not the clipped top fraction minus the clipped bottom fraction: fractions of one source layer no longer sum to one '
-                              'and column mass is not conserved' % norm(val)))
+                              'and column mass is not conserved' % vt))
     idx = norm(st.targets[0].slice)
-    if idx in ('(lay, li)', 'lay, li'):
+    if idx in ('(%s, %s)' % (lv, I), '%s, %s' % (lv, I)):
         ctx.ok('R-OVERLAP', 'index', w, 'stored at [source layer, target layer]')
     else:
         ctx.violation(Finding('R-OVERLAP', CU, 'sigma2coeff', st, 'the fraction is stored at [%s], not [source layer, target layer]: the matrix is transposed against its use (Nold, Nnew)' % idx), oid='index')
